@@ -18,6 +18,7 @@ import (
 	"go/parser"
 	"go/token"
 	"go/types"
+	"math"
 	"math/big"
 	"regexp"
 	"runtime/debug"
@@ -29,6 +30,7 @@ import (
 	"verif/kit"
 
 	"github.com/open2b/scriggo"
+	"github.com/open2b/scriggo/native"
 )
 
 // ---- alphabet ----
@@ -203,17 +205,88 @@ func referenceQuirk(info *types.Info, root ast.Expr) string {
 	return quirk
 }
 
+// cDecl returns the declaration of the constant c.
+func cDecl(f *ast.File) ast.Decl {
+	for _, d := range f.Decls {
+		if g, ok := d.(*ast.GenDecl); ok && g.Tok == token.CONST && len(g.Specs) == 1 {
+			if vs := g.Specs[0].(*ast.ValueSpec); len(vs.Names) == 1 && vs.Names[0].Name == "c" {
+				return d
+			}
+		}
+	}
+	panic("harness: no declaration of c")
+}
+
+// The native package m: untyped numeric constants declared with
+// native.UntypedNumericConst and typed constants, described to go/types by a
+// source twin generated from the same table.
+type nativeConst struct{ name, spelling, goExpr string }
+
+var nativeConsts = []nativeConst{
+	{"Big", "1267650600228229401496703205376", "1267650600228229401496703205376"},
+	{"Small", "7", "7"}, {"Neg", "-5", "-5"}, {"Zero", "0", "0"}, {"Max64", "9223372036854775807", "9223372036854775807"}, {"Over64", "9223372036854775808", "9223372036854775808"},
+	{"Hex", "0x10", "0x10"}, {"Bin", "0b11", "0b11"}, {"Oct", "0o17", "0o17"}, {"Under", "1_000", "1_000"},
+	{"Half", "0.5", "0.5"}, {"Tenth", "0.1", "0.1"}, {"NegF", "-1.5", "-1.5"}, {"LeadDot", ".5", ".5"}, {"TrailDot", "2.", "2."}, {"IntF", "4.0", "4.0"},
+	{"Exp", "1.5e3", "1.5e3"}, {"BigExp", "1.0e100", "1.0e100"}, {"Huge", "1.0e1000", "1.0e1000"}, {"Tiny", "1.0e-320", "1.0e-320"}, {"HexF", "0x1.8p1", "0x1.8p1"},
+	{"Ratio", "1/3", "1.0 / 3"}, {"RatioInt", "6/3", "6.0 / 3"},
+	{"Imag", "2i", "2i"}, {"Cplx", "1+2i", "1 + 2i"}, {"CplxNeg", "1.5-0.5i", "1.5 - 0.5i"}, {"CplxReal", "3+0i", "3 + 0i"},
+	{"Rune", "'a'", "'a'"}, {"RuneEsc", "'\\n'", "'\\n'"},
+}
+
+// exponent forms without a radix point are spelled as Go spells them
+var nativeConstsExp = []nativeConst{{"ExpInt", "1e+100", "1e+100"}, {"ExpInt2", "1e3", "1e3"}, {"ExpIntBig", "1E20", "1E20"}, {"HexExp", "0x1p10", "0x1p10"}}
+
+var nativeM, nativeTwin = func() (native.Packages, string) {
+	decls := native.Declarations{"T8": int8(5), "TU": uint64(1 << 63), "TF": float32(0.1), "TS": "s", "TB": true, "TC": complex64(1 + 2i),
+		"UB": native.UntypedBooleanConst(true), "US": native.UntypedStringConst("u")}
+	var b strings.Builder
+	b.WriteString("package m\n\nconst T8 int8 = 5\nconst TU uint64 = 1 << 63\nconst TF float32 = 0.1\nconst TS string = \"s\"\nconst TB bool = true\nconst TC complex64 = 1 + 2i\nconst UB = true\nconst US = \"u\"\n")
+	for _, c := range nativeConsts {
+		decls[c.name] = native.UntypedNumericConst(c.spelling)
+		b.WriteString("const " + c.name + " = " + c.goExpr + "\n")
+	}
+	pkgs := native.Packages{"m": native.Package{Name: "m", Declarations: decls}}
+	// one package per exponent form: an unusable constant makes its whole package unusable
+	for _, c := range nativeConstsExp {
+		pkgs[c.name] = native.Package{Name: c.name, Declarations: native.Declarations{"N": native.UntypedNumericConst(c.spelling)}}
+	}
+	return pkgs, b.String()
+}()
+
+type twinImporter struct{ fset *token.FileSet }
+
+func (ti twinImporter) Import(path string) (*types.Package, error) {
+	src := nativeTwin
+	for _, c := range nativeConstsExp {
+		if path == c.name {
+			src = "package " + c.name + "\n\nconst N = " + c.goExpr + "\n"
+		}
+	}
+	if path != "m" && src == nativeTwin {
+		return nil, fmt.Errorf("cannot find package %q", path)
+	}
+	f, err := parser.ParseFile(ti.fset, path+"/twin.go", src, parser.SkipObjectResolution)
+	if err != nil {
+		panic("harness: twin of package m: " + err.Error())
+	}
+	conf := types.Config{GoVersion: "go1.25", Error: func(e error) { panic("harness: twin of package m: " + e.Error()) }}
+	return conf.Check(path, ti.fset, []*ast.File{f}, nil)
+}
+
 func goJudge(pre prelude, e string) (*goVerdict, error) {
 	fset := token.NewFileSet()
 	src := goSource(pre, e)
-	cLine := 2 + len(pre.names)
+	cLine := 2 + strings.Count(pre.decls, "\n")
 	f, err := parser.ParseFile(fset, "main.go", src, parser.SkipObjectResolution)
 	if err != nil {
 		return nil, err
 	}
 	byLine := map[int]string{}
-	conf := types.Config{GoVersion: "go1.25", Error: func(e error) {
+	conf := types.Config{GoVersion: "go1.25", Importer: twinImporter{fset}, Error: func(e error) {
 		te := e.(types.Error)
+		if fset.Position(te.Pos).Filename != "main.go" {
+			return
+		}
 		ln := fset.Position(te.Pos).Line
 		if _, ok := byLine[ln]; !ok {
 			byLine[ln] = te.Msg
@@ -223,7 +296,7 @@ func goJudge(pre prelude, e string) (*goVerdict, error) {
 	pkg, _ := conf.Check("main", fset, []*ast.File{f}, info)
 	v := &goVerdict{}
 	// operand classes
-	root := ast.Unparen(f.Decls[len(pre.names)].(*ast.GenDecl).Specs[0].(*ast.ValueSpec).Values[0])
+	root := ast.Unparen(cDecl(f).(*ast.GenDecl).Specs[0].(*ast.ValueSpec).Values[0])
 	var operands []ast.Expr
 	switch n := root.(type) {
 	case *ast.BinaryExpr:
@@ -348,7 +421,7 @@ type scriggoResult struct {
 }
 
 func scriggoBuild(src string) (*scriggo.Program, scriggoResult) {
-	p, err := scriggo.Build(scriggo.Files{"main.go": []byte(src)}, nil)
+	p, err := scriggo.Build(scriggo.Files{"main.go": []byte(src)}, &scriggo.BuildOptions{Packages: nativeM})
 	if err == nil {
 		return p, scriggoResult{ok: true}
 	}
@@ -599,11 +672,34 @@ func runProbes(base, head, opKey string, probes []probe) (kit.Outcome, bool) {
 		return fail(opKey+" print-count", fmt.Sprintf("%s\nprinted %d values, want %d", prog.String(), len(got), len(probes))), true
 	}
 	for i, pr := range probes {
-		if got[i] != pr.want {
+		if !sameValue(got[i], pr.want) {
 			return fail(pr.key, fmt.Sprintf("%sprint(%s)\nexpected %T %v\nobserved %T %v", head, pr.what, pr.want, pr.want, got[i], got[i])), true
 		}
 	}
 	return kit.Outcome{}, false
+}
+
+// sameValue is == on the printed values, except that it tells -0 from +0 (Go
+// constants have no negative zero) and takes NaN as equal to NaN.
+func sameValue(got, want any) bool {
+	f := func(a, b float64) bool {
+		return a == b && math.Signbit(a) == math.Signbit(b) || a != a && b != b
+	}
+	switch w := want.(type) {
+	case float64:
+		g, ok := got.(float64)
+		return ok && f(g, w)
+	case float32:
+		g, ok := got.(float32)
+		return ok && f(float64(g), float64(w))
+	case complex128:
+		g, ok := got.(complex128)
+		return ok && f(real(g), real(w)) && f(imag(g), imag(w))
+	case complex64:
+		g, ok := got.(complex64)
+		return ok && f(float64(real(g)), float64(real(w))) && f(float64(imag(g)), float64(imag(w)))
+	}
+	return got == want
 }
 
 // rounded512IsInt reports whether the non-integer floating-point constant val
@@ -864,7 +960,11 @@ func spaces(tier string) []kit.Space {
 		}),
 	}
 	sps = append(sps, boundarySpaces()...)
-	sps = append(sps, namedSpace())
+	sps = append(sps, namedSpace(), typedBoundarySpace())
+	sps = append(sps, extendedSpaces()...)
+	sps = append(sps, typedDeclSpace(), constGroupSpace())
+	sps = append(sps, nativeConstSpaces()...)
+	sps = append(sps, implicitSpace())
 	if thorough {
 		sps = append(sps, deepSpaces("11.depth2.untyped16", deep16, false)...)
 		sps = append(sps, deepSpaces("12.depth2.typed8", deep8, true)...)
